@@ -198,6 +198,10 @@ DropMuts(cls) ==
   Flat(MapL(ElSeq, LAMBDA i : MapL(AttrNames(i), LAMBDA a : TreeAct("DropAttribute", cls[i], a, <<DropAttr(i, a)>>))))
 
 (* 2. GarbleNumber *)
+\* text that a diagnostic echoes must not be interpreted by whatever formats the diagnostic
+\* ({fmt} replacement fields, printf conversions): tried at every picked position, never rotated away
+EchoLex == << <<"brace-open", "a{b">>, <<"brace-pair", "{}">>, <<"brace-index", "x{0}">>, <<"brace-close", "a}b">>,
+              <<"printf-conversions", "%s%n%s">> >>
 NumLex == << <<"empty", "">>, <<"minus-one", "-1">>, <<"plus-sign", "+5">>, <<"leading-space", " 5">>, <<"trailing-space", "5 ">>,
              <<"hex", "0x10">>, <<"exponent", "1e3">>, <<"u64-max", "18446744073709551615">>,
              <<"u64-max-plus-1", "18446744073709551616">>, <<"20-digits", "99999999999999999999">>,
@@ -219,6 +223,8 @@ NumberMuts(cls) ==
     Flat(MapIdx(NumAttrsOf(Tag(i)), LAMBDA q, a :
       MapL(Rot(NumLex, r * 7 + q, LexPer), LAMBDA lx :
         TreeAct("GarbleNumber", cls[i] \o "@" \o a, lx[1], <<SetAttr(i, a, lx[2])>>)))) \o
+    Flat(MapL(Take(NumAttrsOf(Tag(i)), 1), LAMBDA a : MapL(Take(EchoLex, 2), LAMBDA lx :
+        TreeAct("GarbleNumber", cls[i] \o "@" \o a, lx[1], <<SetAttr(i, a, lx[2])>>)))) \o
     Opt(Tag(i) \in NumTextTags \/ (Tag(i) = "type" /\ Doc[i].text # ""),
         MapL(Rot(NumLex, r * 7 + 5, LexPer), LAMBDA lx :
           TreeAct("GarbleNumber", cls[i] \o "@text", lx[1], <<SetText(i, lx[2])>>)))))
@@ -234,12 +240,13 @@ NextSibNamed(i) == Sel(Kids(Par(i)), LAMBDA j : j # i /\ Has(j, "name"))
 NameMuts(cls) ==
   Flat(MapIdx(PickEls(Named, cls), LAMBDA r, i :
     MapL(Rot(NameLex, r, NamePer), LAMBDA lx : TreeAct("GarbleName", cls[i], lx[1], <<SetAttr(i, "name", lx[2])>>)) \o
+    MapL(EchoLex, LAMBDA lx : TreeAct("GarbleName", cls[i], lx[1], <<SetAttr(i, "name", lx[2])>>)) \o
     <<TreeAct("GarbleName", cls[i], "own-name-other-case", <<SetAttr(i, "name", CaseVariant(Val(i, "name")))>>)>> \o
     MapL(Take(NextSibNamed(i), 1), LAMBDA j :
       TreeAct("GarbleName", cls[i], "sibling-name-other-case", <<SetAttr(i, "name", CaseVariant(Val(j, "name")))>>)) \o
     MapL(Take(NextSibNamed(i), 1), LAMBDA j :
       TreeAct("GarbleName", cls[i], "same-as-sibling", <<SetAttr(i, "name", Val(j, "name"))>>)))) \o
-  MapL(Rot(NameLex, 3, 0), LAMBDA lx : TreeAct("GarbleName", "schema@package", lx[1], <<SetAttr(Root, "package", lx[2])>>))
+  MapL(Rot(NameLex, 3, 0) \o EchoLex, LAMBDA lx : TreeAct("GarbleName", "schema@package", lx[1], <<SetAttr(Root, "package", lx[2])>>))
 
 (* 4. MoveElement *)
 cls0(i) == PosClass(i)
@@ -298,6 +305,7 @@ RetargetAt(cls, i) ==
        TreeAct("Retarget", pos, "primitive-double", <<SetAttr(i, a, "double")>>),
        TreeAct("Retarget", pos, "primitive-other-case", <<SetAttr(i, a, "UINT8")>>),
        TreeAct("Retarget", pos, "non-ascii", <<SetAttr(i, a, "\\u00e9\\xff")>>)>> \o
+     MapL(EchoLex, LAMBDA lx : TreeAct("Retarget", pos, lx[1], <<SetAttr(i, a, lx[2])>>)) \o
      Opt(cur # "" /\ CaseVariant(cur) # cur, <<TreeAct("Retarget", pos, "other-case", <<SetAttr(i, a, CaseVariant(cur))>>)>>)
 PubComposites == TopWhere(LAMBDA t : Tag(t) = "composite" /\ RoleOfTop(t) = "public")
 MutualCycles ==
@@ -371,7 +379,7 @@ VRefGarbage == << <<"empty", "">>, <<"dot", ".">>, <<"no-value", "A.">>, <<"no-e
                   <<"no-dot", "A">>, <<"unknown-enum", "nosuch_e.X">> >>
 FirstEnumName == IF Len(TopWhere(LAMBDA t : Tag(t) = "enum")) > 0 THEN Val(TopWhere(LAMBDA t : Tag(t) = "enum")[1], "name") ELSE "nosuch_e"
 FirstCompName == IF Len(PubComposites) > 0 THEN Val(PubComposites[1], "name") ELSE "nosuch_c"
-VRefPool == VRefGarbage \o << <<"unknown-value", FirstEnumName \o ".NoSuchValue">>, <<"enum-other-case", CaseVariant(FirstEnumName) \o ".A">>,
+VRefPool == VRefGarbage \o << <<"brace-pair", "{}.{}">>, <<"brace-open", "a{.b">> >> \o << <<"unknown-value", FirstEnumName \o ".NoSuchValue">>, <<"enum-other-case", CaseVariant(FirstEnumName) \o ".A">>,
                               <<"composite-member", FirstCompName \o ".x">>, <<"only-enum-name", FirstEnumName>> >>
 TypeEls == Tagged("type")
 PrimOf(i) == IF Has(i, "primitiveType") THEN Val(i, "primitiveType") ELSE "?"
@@ -451,6 +459,9 @@ IncludeMuts ==
     IncAct("href-is-directory", <<IncRoot(".", "first")>>, NoFile),
     IncAct("href-5000-chars", <<IncRoot(Long5000, "first")>>, NoFile),
     IncAct("href-non-ascii", <<IncRoot("\\u00e9\\xff.xml", "first")>>, NoFile),
+    IncAct("href-brace-pair", <<IncRoot("{}.xml", "first")>>, NoFile),
+    IncAct("href-brace-open", <<IncRoot("a{b.xml", "last")>>, NoFile),
+    IncAct("href-printf-conversions", <<IncRoot("%s%n.xml", "first")>>, NoFile),
     IncAct("href-missing", <<Insert(Root, "first", <<FragEl("xi:include", 0, <<>>, "")>>)>>, NoFile),
     IncAct("self-include-of-main", <<IncRoot("main.xml", "first")>>, NoFile),
     IncAct("self-include-of-fragment", <<IncRoot("a.xml", "first")>>, <<Frag("a.xml", <<"a.xml">>, <<>>)>>),
@@ -549,7 +560,7 @@ OptNames == <<"--schema-name", "--output-dir", "--inject-include">>
 SchemaNames == << <<"empty", "">>, <<"space", "a b">>, <<"keyword", "class">>, <<"leading-digit", "9x">>, <<"slash", "a/b">>,
                   <<"dot-dot", "../x">>, <<"colons", "a::b">>, <<"5000-chars", Long5000>>, <<"non-ascii", "\\u00e9">>,
                   <<"invalid-utf8", "\\xff\\xfe">>, <<"reserved-types", "types">>, <<"reserved-schema", "schema">>, <<"valid", "other_name">>,
-                  <<"dash-dash", "--">>, <<"option-like", "--output-dir">> >>
+                  <<"dash-dash", "--">>, <<"option-like", "--output-dir">>, <<"brace-pair", "{}">>, <<"brace-open", "a{b">> >>
 IncludeArgs == << <<"quote", "a\"b.hpp">>, <<"backslash", "a\\b.hpp">>, <<"angle", "<vector>">>, <<"empty", "">>, <<"newline", "a\\u000ab">>,
                   <<"directive-injection", "x.hpp\"\\u000a#error injected\\u000a#include \"y">>, <<"5000-chars", Long5000>>,
                   <<"non-ascii", "\\u00e9\\xff.hpp">>, <<"valid", "my/header.hpp">> >>
@@ -589,6 +600,11 @@ ArgvMuts ==
     ArgAct("files", "dev-null", Std \o <<"/dev/null">>, ""),
     ArgAct("files", "dev-zero", Std \o <<"/dev/zero">>, ""),
     ArgAct("files", "non-ascii-name", Std \o <<"\\u00e9\\xff.xml">>, ""),
+    ArgAct("files", "brace-pair-name", Std \o <<"{}.xml">>, ""),
+    ArgAct("files", "brace-open-name", Std \o <<"a{b.xml">>, ""),
+    ArgAct("files", "printf-conversions-name", Std \o <<"%s%n.xml">>, ""),
+    ArgAct("unknown-option", "braces", Std \o <<"--{}", "@main">>, ""),
+    ArgAct("output-dir", "braces-below-a-file", <<"--output-dir", "@outfile/{}", "@main">>, ""),
     ArgAct("files", "second-valid-schema", Std \o <<"@second">>, ""),
     ArgAct("output-dir", "existing-file", <<"--output-dir", "@outfile", "@main">>, ""),
     ArgAct("output-dir", "below-a-file", <<"--output-dir", "@outfile/sub", "@main">>, ""),
